@@ -97,6 +97,9 @@ def get_iter(interp, v, node=None):
         v.iters += 1
         it = SrcIter(v.rows, v.n, '%s#%d' % (v.name, v.iters))
         it.table = v
+        if not hasattr(v, 'iterators'):
+            v.iterators = []
+        v.iterators.append(it)
         return it
     if isinstance(v, Seq):
         it = SrcIter(v.arr, v.len, 'seq', origin=v.origin)
@@ -1085,6 +1088,12 @@ class SDict(object):
         self.size = None
 
     def _find(self, interp, k):
+        if getattr(self, 'opaque', False):
+            if interp.ctx.branch(smt.fresh_bool('in_opaque_dict'), 'key present in an unknown dict'):
+                self.keys.append(k)
+                self.vals.append(SCell(smt.fresh_v('dictval')))
+                return len(self.keys) - 1
+            return None
         for i, kk in enumerate(self.keys):
             r = py_equal(interp, kk, k)
             if interp.truth(r):
@@ -1127,7 +1136,9 @@ class SDict(object):
         return d
 
     def havoc(self, interp, nm):
-        raise Unsupported('dict %s mutated inside a contracted loop' % nm)
+        """after a contracted loop mutated it the contents are unknown: reads give unconstrained values (sound)"""
+        self.keys, self.vals = [], []
+        self.opaque = True
 
 
 class SSet(object):
@@ -1232,7 +1243,14 @@ def symbolic_map(interp, it, gen, node, env, keep_and_val, kind):
         hook = getattr(interp, 'filter_hook', None)
         if hook is not None:
             return hook(interp, it, gen, node, env)
-        raise Unsupported('filtered comprehension over a symbolic sequence at %s' % interp.where(node))
+        if not getattr(interp, 'overapprox_filters', False):
+            raise Unsupported('filtered comprehension over a symbolic sequence at %s' % interp.where(node))
+        # sound over-approximation (havoc): some list no longer than the source; contents unconstrained
+        n = z3.simplify(sym_remaining(it))
+        ln = smt.fresh_int('flen')
+        interp.ctx.assume(z3.And(0 <= ln, ln <= n))
+        sym_exhaust(it)
+        return Seq(smt.fresh_arr('filtered'), ln, kind, 'Fresh')
     return drain(interp, MapIter(it, keep_and_val), kind, node)
 
 
@@ -1540,6 +1558,18 @@ def super_call(interp, node, env):
             return get_iter(interp, under, node)
     if meth == '__new__':
         return selfobj
+    # super(Cls, self).method(...): first base of Cls (depth-first) that defines the method
+    if isinstance(selfobj, Instance) and len(sup.args) == 2:
+        cls = interp.eval(sup.args[0], env)
+        if isinstance(cls, ClassObj):
+            for base in cls.bases:
+                if isinstance(base, ClassObj):
+                    f = base.find(meth)
+                    if f:
+                        kwargs = {k.arg: interp.eval(k.value, env) for k in node.keywords if k.arg}
+                        return interp.call(BoundMethod(f[0], selfobj), args, kwargs, node)
+            if meth == '__init__':
+                return None
     raise Unsupported('super().%s at %s' % (meth, interp.where(node)))
 
 
